@@ -4,3 +4,4 @@ import Spec.Find
 import Spec.Wire
 import Spec.Canon
 import Spec.Split
+import Spec.Dispatch
